@@ -398,5 +398,27 @@ def o_fault_call(p, cfg):
 ORACLES["fault_call"] = o_fault_call
 
 
+def o_mp_mode(p, cfg):
+    """C16: with USE_MULTIPROCESSING=True every call behaves as in threading mode."""
+    os.environ["USE_MULTIPROCESSING"] = "True"
+    try:
+        store, props, root = new_store(cfg)
+        out = outcome(store.store_object, "pid-mp", tmp_input(root, b"mp bytes"))
+        if out[0] != "return":
+            return True, f"store_object in multiprocessing mode raised {out[1]}: {out[2]}"
+        out = outcome(store.store_metadata, "pid-mp", tmp_input(root, b"<m/>", "m.xml"), "f")
+        if out[0] != "return":
+            return True, f"store_metadata in multiprocessing mode raised {out[1]}: {out[2]}"
+        out = outcome(store.delete_object, "pid-mp")
+        if out[0] != "return":
+            return True, f"delete_object in multiprocessing mode raised {out[1]}: {out[2]}"
+        return False, "store / store_metadata / delete work in multiprocessing mode"
+    finally:
+        os.environ.pop("USE_MULTIPROCESSING", None)
+
+
+ORACLES["mp_mode"] = o_mp_mode
+
+
 if __name__ == "__main__":
     main()
